@@ -20,6 +20,7 @@ from pySDC.implementations.datatype_classes.mesh import mesh
 import pySDC.helpers.ParaDiagHelper as ph
 
 PID = 'C15'
+BOUNDS = {'quick': dict(n_steps='1..6', alpha='1, 1e-2, 1e-8', M='1..3', iteration='(M,L) in (2,2) (2,3) (1,3) (3,2)'), 'thorough': dict(n_steps='1..8', alpha='5 values', M='1..5', iteration='L<=5')}
 
 
 def describe(rep):
